@@ -662,7 +662,11 @@ class Extractor:
                     body = ''.join((tf[0] if (x.kind == 'ident' and x.text == h['consts'][0]) else x.text) for x in tokenize(body))
                 self._r14 = getattr(self, '_r14', 0) + 1
                 K = self._r14
-                lets = ''.join('let __r14_%d_%d = %s; ' % (K, n_, arg) for n_, arg in enumerate(args))
+                def arg_expr(n_, arg):
+                    # an argument that is a plain `&mut` variable of the caller is re-borrowed, not moved (the call would re-borrow it too)
+                    if h['params'][n_][1].lstrip().startswith('&mut') and re.fullmatch(r'[A-Za-z_][A-Za-z0-9_]*', arg): return '&mut *%s' % arg
+                    return arg
+                lets = ''.join('let __r14_%d_%d = %s; ' % (K, n_, arg_expr(n_, arg)) for n_, arg in enumerate(args))
                 for n_, (pat, ty) in enumerate(h['params']):
                     plain = not any(re.search(r'(?<![A-Za-z0-9_])%s(?![A-Za-z0-9_])' % re.escape(gname), ty) for gname in (h['generics'] | set(h['consts']))) and "'" not in ty and 'impl ' not in ty and not ty.lstrip().startswith('&mut')
                     lets += ('let %s: %s = __r14_%d_%d; ' % (pat, ty, K, n_)) if plain else ('let %s = __r14_%d_%d; ' % (pat, K, n_))
